@@ -304,6 +304,10 @@ class AIOKafkaClient:
                 log.warning(
                     "Unable to request metadata from node with id %s: %r", node_id, err
                 )
+                if isinstance(err, asyncio.TimeoutError):
+                    # Same as in `send()`: close the connection so it is
+                    # renewed, a stuck one would time out every next update
+                    conn.close(reason=CloseReason.CONNECTION_TIMEOUT)
                 continue
 
             # don't update the cluster if there are no valid nodes...the topic
